@@ -12,11 +12,13 @@ package main
 //                   only what Go renders the same way (no nested pointers, no nil)          [search]
 
 import (
+	"bytes"
 	"encoding/hex"
 	"fmt"
 	"math"
 	"strconv"
 	"strings"
+	"testing/fstest"
 	"time"
 
 	goat "github.com/philhassey/goatlang"
@@ -474,8 +476,31 @@ func (c *Ctx) c14Separators() {
 	}
 }
 
+// c14Redeclared: a struct type whose declaration executes more than once (a function-local type in a function
+// called several times; the same source evaluated twice on one VM) still prints every field once, in order
+func (c *Ctx) c14Redeclared() {
+	var out bytes.Buffer
+	vm := goat.New(goat.WithStdout(&out))
+	src := "type R struct {\n\tA int\n\tB string\n\tC []int\n}\nfunc mk(k int) {\n\ttype L struct {\n\t\tP int\n\t\tQ string\n\t}\n\tprintln(&L{P: k, Q: \"q\"}, &R{A: k, B: \"b\"})\n}\nmk(1)\nmk(2)\nmk(3)\n"
+	var err error
+	for i := 0; i < 2 && err == nil; i++ {
+		_, err = vm.Eval(fstest.MapFS{}, "main", src)
+	}
+	want := ""
+	for i := 0; i < 2; i++ {
+		for k := 1; k <= 3; k++ {
+			want += fmt.Sprintf("&{P:%d Q:q} &{A:%d B:b C:[]}\n", k, k)
+		}
+	}
+	c.Rep.Oracle["redeclared-type-format"]++
+	if err != nil || out.String() != want {
+		c.Rep.Violate(Violation{Kind: "oracle", Cut: "redeclared-type-format", Input: "evaluated twice on one VM:\n" + src, Impl: fmt.Sprintf("%q err=%v", out.String(), err), Oracle: fmt.Sprintf("%q", want)})
+	}
+}
+
 func (c *Ctx) c14Scripts(n int) error {
 	c.c14Separators()
+	c.c14Redeclared()
 	var progs []c14Prog
 	var lines []string
 	var starts []int
